@@ -2,7 +2,7 @@
 # Regression seeds for free: every "fix:" commit recorded as fixed in known_findings.json is reverted on a private
 # scratch worktree of /repo and the quick check of its property has to report the violation again ("a fixed entry
 # suppresses nothing").  One line per (property, commit): CAUGHT … / MISSED / SKIP (the reverse patch no longer applies).
-# usage: tools/run_reverts.sh [Cxx ...]
+# usage: [REVERT_ONLY="<commit> ..."] tools/run_reverts.sh [Cxx ...]
 HERE="$(cd "$(dirname "$0")/.." && pwd)"
 cd "$HERE" || exit 2
 mkdir -p work/reverts
@@ -19,6 +19,7 @@ for f in json.load(open("known_findings.json"))["findings"]:
             seen.add(k); print(f["property"], c)
 PY
 while read p c; do
+  if [ -n "$REVERT_ONLY" ]; then case " $REVERT_ONLY " in *" $c "*) ;; *) continue;; esac; fi
   d="work/reverts/$c.diff"
   git -C /repo show --format= "$c" -- . > "$d.fwd" 2>/dev/null || { echo "$p $c SKIP unknown-commit"; continue; }
   # the reverse of the fix, as a patch against HEAD
